@@ -187,7 +187,7 @@ Lemma FLay_add w y A s w2 c rsn asn : FLay w y A ->
   Forall2 rr_desc2 rsn asn -> checked_add16 (sec_count s w2) (N.of_nat (length asn)) = Some c ->
   FLay (set_sec_count s w2 c) (mkLay (y_qs y) (y_rrs y ++ rsn)) (add_rrs A s asn).
 Proof.
-  intros [Fq Fr Fm Cq Ca Cn Cr [Bq [Ba [Bn Br]]] Fs] Hs Es Em Eq Ea En Er Ee Et Hd Hc.
+  intros [Fq Fr Fm Cq Ca Cn Cr [Bq [Ba [Bn Br]]] Fe Fs] Hs Es Em Eq Ea En Er Ee Et Hd Hc.
   apply checked_add16_some in Hc as [Hc Hb].
   destruct s; [contradiction| | |].
   - (* answer *)
@@ -198,6 +198,7 @@ Proof.
     + rewrite N1, N2, !app_nil_r. apply Forall2_app; auto.
     + simpl in Hc. rewrite Hc, Ea, Ca, app_length. lia.
     + simpl in Hb. rewrite Eq, En, Er. auto.
+    + intros e0 He0. apply Fe. congruence.
     + rewrite Es. auto.
   - (* authority *)
     assert (Hnil : am_ar A = []).
@@ -207,12 +208,14 @@ Proof.
     + rewrite Hnil, !app_nil_r. rewrite app_assoc. apply Forall2_app; auto.
     + simpl in Hc. rewrite Hc, En, Cn, app_length. lia.
     + simpl in Hb. rewrite Eq, Ea, Er. auto.
+    + intros e0 He0. apply Fe. congruence.
     + rewrite Es. auto.
   - (* additional *)
     constructor; simpl; auto; try congruence.
     + rewrite !app_assoc. apply Forall2_app; auto. rewrite <- app_assoc. exact Fr.
     + simpl in Hc. rewrite Hc, Er, Cr, Ee, Et, app_length. lia.
     + simpl in Hb. rewrite Eq, Ea, En. auto.
+    + intros e0 He0. apply Fe. congruence.
     + rewrite Es. auto.
 Qed.
 
@@ -391,7 +394,7 @@ Proof.
   assert (Ag : agree (w_cursor (d_w d)) (w_buf (d_w d)) (w_buf w3)).
   { eapply agree_trans; [apply X|]. eapply agree_le; [exact Ag13|lia]. }
   assert (Hcm : w_cursor (d_w d) <= w_cursor w3) by lia.
-  destruct HL as [[P1 P2 P3] HF]. pose proof HF as [Fq Fr Fm Cq Ca Cn Cr [Bq [Ba [Bn Br]]] Fs].
+  destruct HL as [[P1 P2 P3] HF]. pose proof HF as [Fq Fr Fm Cq Ca Cn Cr [Bq [Ba [Bn Br]]] Fe Fs].
   rewrite Esec in Fs. destruct Fs as [Fa [Fn Fra]]. rewrite Fa, Fn, Fra in Fr. simpl in Fr.
   inversion Fr as [Hnil|]; subst. rewrite <- Hnil in *. simpl in P2.
   set (q := mkLQ (mkNC (w_cursor (d_w d)) (w_cursor w1) n (exactf (w_mode (d_w d))) sh) qt qc).
@@ -443,6 +446,7 @@ Proof.
       * rewrite (x_an _ _ _ X3), (x_an _ _ _ X2), Ean1, (x_an _ _ _ X).
         rewrite (x_ns _ _ _ X3), (x_ns _ _ _ X2), Ens1, (x_ns _ _ _ X).
         rewrite (x_ar _ _ _ X3), (x_ar _ _ _ X2), Ear1, (x_ar _ _ _ X). auto.
+      * rewrite (x_edns _ _ _ X3), (x_edns _ _ _ X2), Ee1, (x_edns _ _ _ X). exact Fe.
       * destruct Sd3 as [_ [_ [_ S3]]]. destruct Sd2 as [_ [_ [_ S2]]]. destruct Sd as [_ [_ [_ S1]]].
         rewrite S3, S2, Es1, S1, Esec. auto.
 Qed.
@@ -491,7 +495,7 @@ Proof.
         apply (rrs_starts_bound _ _ _ _ _ _ P2) in K; lia.
       * intros [K|[]]. split; auto.
         apply (qs_starts_bound _ _ _ _ _ _ P1) in K; lia.
-  - destruct HF as [Fq Fr Fm Cq Ca Cn Cr [Bq _] Fs]. constructor; simpl; auto.
+  - destruct HF as [Fq Fr Fm Cq Ca Cn Cr [Bq _] Fe Fs]. constructor; simpl; auto.
     + destruct (w_edns (d_w d)); destruct (w_tsig (d_w d)); reflexivity.
     + split; auto. destruct (w_edns (d_w d)); destruct (w_tsig (d_w d)); simpl; lia.
 Qed.
@@ -499,7 +503,9 @@ Qed.
 Lemma FLay_clear_upper w y A : FLay w y A -> FLay (clear_upper w) y A.
 Proof.
   intros HF. unfold clear_upper. destruct (w_edns w) eqn:E; auto.
-  eapply FLay_fields; eauto. simpl. rewrite E. reflexivity.
+  destruct HF as [Fq Fr Fm Cq Ca Cn Cr Fb Fe Fs]. constructor; simpl; auto.
+  - rewrite Cr, E. reflexivity.
+  - intros e0 H0. inversion H0; subst e0. simpl. destruct (Fe _ E). split; auto. lia.
 Qed.
 
 Theorem step2_all d g y A L o : AInv d g L -> LInv d y A L -> op_wf o -> op_contract d g o ->
@@ -549,7 +555,11 @@ Proof.
         unfold resv in *. simpl in *. rewrite He, Ee in i_av. exact i_av.
       * intros t Et. apply (a_ts _ _ _ H). exact Et.
     + apply (LInv_fields (mkD w' (d_regs d)) y A L); auto.
-      destruct H' as [_ HF']. eapply FLay_fields; eauto. simpl. rewrite He, Ee. reflexivity.
+      destruct H' as [_ HF']. cbn [d_w] in HF'.
+      destruct HF' as [Fq Fr Fm Cq Ca Cn Cr Fb Fe Fs]. constructor; simpl; auto.
+      * rewrite Cr, He, Ee. reflexivity.
+      * intros e0 H0. inversion H0; subst e0. simpl. rewrite He in Fe. destruct (Fe _ Ee). split; auto.
+        apply N.mod_lt. lia.
   - (* set_limit *)
     destruct (set_limit_ok l (d_w d) Hn) as [nl [av E]]. rewrite E. simpl. exists L, y. split.
     + apply (AInv_fields d g L); auto. eapply set_limit_inv; eauto. apply (a_ts _ _ _ Hi).
@@ -566,14 +576,16 @@ Proof.
       destruct (checked_add16 (w_ar (d_w d)) 1) as [ar|] eqn:Ea; [|discriminate]. inversion E; subst w'.
       apply checked_add16_some in Ea as [Ea Hba].
       split; [apply (AInv_fields d g L); auto; apply (a_ts _ _ _ Hi)|].
-      apply (LInv_fields d y A L); auto. destruct HF as [Fq Fr Fm Cq Ca Cn Cr [Bq [Ba [Bn Br]]] Fs].
-      constructor; simpl; auto. rewrite Ea, Cr, Ee. simpl. lia.
+      apply (LInv_fields d y A L); auto. destruct HF as [Fq Fr Fm Cq Ca Cn Cr [Bq [Ba [Bn Br]]] Fe Fs].
+      constructor; simpl; auto.
+      * rewrite Ea, Cr, Ee. simpl. lia.
+      * intros e0 H0. inversion H0; subst e0. simpl. split; [exact Hwf|lia].
     + exists L, y. split; [apply AInv_obs; auto|eapply (LInv_obs d g); eauto].
     + unfold set_edns in E. destruct (w_edns (d_w d)); [discriminate|].
       destruct (w_avail (d_w d) <? w_cursor (d_w d) + opt_record_size); [discriminate|].
       destruct (checked_add16 (w_ar (d_w d)) 1); discriminate.
   - (* set_tsig *)
-    destruct Hwf as [Wa [Wk [Wt [Ws [Oa [Ot Os]]]]]].
+    destruct Hwf as [Wa [Wk [Wt [Ws [Oa [Ot [Os [Lk La]]]]]]]].
     pose proof (step_good_all d (OSetTsig alg key time fudge origid error stime) Hn) as G. cbn [step] in G.
     destruct (set_tsig (nm_lower alg) (nm_lower key) time fudge origid error stime (d_w d)) as [[[] w']|[e w']|] eqn:E;
       simpl in G |- *.
@@ -585,7 +597,8 @@ Proof.
       * apply (AInv_fields d g L); auto. simpl. intros t Et. inversion Et; subst t.
         unfold tsig_wf; simpl. split; [apply wf_name_lower; auto|]. split; [apply wf_name_lower; auto|].
         split; auto. split; auto. split; auto. split; [apply wf_bytes_lower; auto|]. split; auto.
-      * apply (LInv_fields d y A L); auto. destruct HF as [Fq Fr Fm Cq Ca Cn Cr [Bq [Ba [Bn Br]]] Fs].
+        split; auto. rewrite !wire_lower_length. auto.
+      * apply (LInv_fields d y A L); auto. destruct HF as [Fq Fr Fm Cq Ca Cn Cr [Bq [Ba [Bn Br]]] Fe Fs].
         constructor; simpl; auto. rewrite Ea, Cr, Ets. simpl. lia.
     + exists L, y. split; [apply AInv_obs; auto|eapply (LInv_obs d g); eauto].
     + unfold set_tsig in E. destruct (w_tsig (d_w d)); [discriminate|].
@@ -598,8 +611,8 @@ Proof.
     + apply (AInv_fields d g L); auto.
       * destruct Hn. constructor; simpl; auto. unfold resv in *. simpl. rewrite Et in i_av. exact i_av.
       * simpl. intros t' E'. inversion E'; subst t'.
-        destruct (a_ts _ _ _ Hi t Et) as [T1 [T2 [T3 [T4 [T5 [T6 [T7 T8]]]]]]].
-        destruct Hwf as [W1 W2]. unfold tsig_wf; simpl. auto 10.
+        destruct (a_ts _ _ _ Hi t Et) as [T1 [T2 [T3 [T4 [T5 [T6 [T7 [T8 [T9 T10]]]]]]]]].
+        destruct Hwf as [W1 W2]. unfold tsig_wf; simpl. auto 12.
     + apply (LInv_fields d y A L); auto. eapply FLay_fields; eauto. simpl. rewrite Et. reflexivity.
   - (* clear_rrs *) eexists. eexists. split; [apply AInv_clear; exact Hi|]. eapply LInv_clear; eauto.
   - (* template *)
@@ -836,7 +849,7 @@ Proof.
   destruct (length buf <? header_size); [discriminate|].
   inversion H; subst w0. clear H. split; simpl.
   - constructor; simpl; auto. intros s. unfold L0. tauto.
-  - constructor; simpl; auto; try constructor; try lia; repeat split; try lia.
+  - constructor; simpl; auto; try constructor; try lia; repeat split; try lia; try discriminate.
 Qed.
 
 Theorem run_ok2 : forall ops d g y A L, AInv d g L -> LInv d y A L -> run_contract d g ops ->
@@ -863,6 +876,8 @@ Theorem run_writer_layout buf limit w0 ops : writer_new buf limit = Ok w0 ->
     match rr_final rr with
     | Some (len, b) =>
       exists d wF LF yF,
+        run (mkD w0 []) ops = Ok (d, rr_outcomes rr, true) /\
+        (forall t, w_tsig (d_w d) = Some t -> tsig_wf t) /\
         len = w_cursor wF /\ b = w_buf wF /\ NInv wF (length b) LF /\
         PLay b LF yF (w_rr_start (d_w d)) len /\
         Forall2 q_desc (y_qs yF) (am_qs (areplay am0 ops (rr_outcomes rr))) /\
@@ -882,6 +897,7 @@ Proof.
   - destruct (finish_ok2 d g y _ L Hi HL) as [wF [LF [rsP [EF [HiF [PF [DF HF]]]]]]].
     rewrite EF. cbn [bind]. eexists. split; [reflexivity|]. simpl.
     exists d, wF, LF, (mkLay (y_qs y) (y_rrs y ++ rsP)). destruct HL as [_ HFl].
+    split; auto. split; [apply (a_ts _ _ _ Hi)|].
     split; auto. split; auto. split; auto. split; auto. simpl.
     split; [apply HFl|]. split.
     { rewrite !app_assoc. apply Forall2_app; auto. rewrite <- !app_assoc. apply HFl. }
